@@ -299,6 +299,9 @@ def getitem(I, v, k):
                 break
         if gi is not None:
             return I.call(I.lift(gi), [v, k], {})
+    if isinstance(v, VAny) and isinstance(k, (VInt, VStr, VAny, VBool, VNone)):
+        gf = z3.Function('getitem_f', PyVal, PyVal, PyVal)
+        return VAny(gf(v.t, to_pyval(k)))
     if isinstance(v, VStr) and isinstance(k, VInt):
         j = norm_index(I, k, z3.Length(v.t))
         return VStr(z3.SubString(v.t, j, 1))
@@ -900,9 +903,27 @@ def b_any_all(name):
             if name == 'any':
                 return VBool(z3.Or(ts) if ts else z3.BoolVal(False))
             return VBool(z3.And(ts) if ts else z3.BoolVal(True))
-        # symbolic: quantifier-free skolem form is not available; keep uninterpreted but typed bool
-        r = reduction(I, name, s)
-        return VBool(PyVal.b(r.t))
+        # symbolic: t <=> forall j. kept(j) => truthy(elem(j)), given as two definitional axioms
+        vs = as_vseq(I, s)
+        t = z3.Bool(fresh_name(name))
+        j = z3.Int(fresh_name('q'))
+        w = fresh_int('sk')
+
+        def body(ix):
+            rng = z3.And(ix >= 0, ix < vs.src_len)
+            if vs.pred is not None:
+                rng = z3.And(rng, vs.pred(ix))
+            return rng, truthy(vs.elem(ix))
+        rj, bj = body(j)
+        rw, bw = body(w)
+        ctx = I.ex.ctx
+        if name == 'all':
+            ctx.add(z3.Implies(t, z3.ForAll([j], z3.Implies(rj, bj))))
+            ctx.add(z3.Implies(z3.Not(t), z3.And(rw, z3.Not(bw))))
+        else:
+            ctx.add(z3.Implies(z3.Not(t), z3.ForAll([j], z3.Implies(rj, z3.Not(bj)))))
+            ctx.add(z3.Implies(t, z3.And(rw, bw)))
+        return VBool(t)
     return h
 
 
